@@ -38,6 +38,17 @@ import (
 
 const verifEnabled = true
 
+// VerifYieldHook, when set, is called at points where the apply path holds no
+// lock (between two entries of a task), so that the simulator can let another
+// worker run there.
+var VerifYieldHook func(point string)
+
+func verifYield(point string) {
+	if h := VerifYieldHook; h != nil {
+		h(point)
+	}
+}
+
 // VerifKind identifies one branch of one worker loop.
 type VerifKind int
 
